@@ -286,7 +286,7 @@ class World:
             from skyllh.core.signal_generator import MCMultiDatasetSignalGenerator
             shg = fx.make_shg_mgr(self.cfg, [dict(sources=[(1.0, 0.1, 1.0), (4.0, -0.3, 0.5)], hbw=1.0)])
             (_, _, dswf) = fx.make_weight_services(shg, np.ones((1, shg.n_sources)))
-            vr = [{'dec': (-1.2, 1.2)}] if valid_ranges else None      # events outside are re-drawn (set_selection by mask)
+            vr = [{'dec': (-1.45, 1.45)}] if valid_ranges else None    # events outside are re-drawn (set_selection by mask); wide, so that valid candidates exist
             self.__dict__[key] = MCMultiDatasetSignalGenerator(
                 shg_mgr=shg, dataset_list=[self.ds], data_list=[self.data], valid_event_field_ranges_dict_list=vr,
                 ds_sig_weight_factors_service=dswf, cfg=self.cfg)
